@@ -1,3 +1,21 @@
 import FormulaeModel.Properties.C06
 open FormulaeModel
-#print axioms C06.selectRows_length
+#print axioms C06.C06_lookup_rows
+#print axioms C06.C06_evalArg_rows
+#print axioms C06.C06_state_frozen
+#print axioms C06.C06_state_frozen_seq
+#print axioms C06.C06_levels_frozen
+#print axioms C06.C06_rows_comp
+#print axioms C06.C06_rows_term
+#print axioms C06.C06_rows_group
+#print axioms C06.C06_rows_common
+#print axioms C06.C06_rows_groups
+#print axioms C06.C06_rows
+#print axioms C06.C06_tie_commonStack
+#print axioms C06.C06_tie_groupStack
+#print axioms C06.C06_counterexample_D13
+#print axioms C06.C06_counterexample_D13_ordered
+#print axioms C06.C06_counterexample_D14
+#print axioms C06.C06_classD14_outside_guard
+#print axioms C06.C06_guard_syntactic
+#print axioms C06.C06_rows_comp_syntactic
